@@ -5,3 +5,29 @@
 //! (socket layer, timer) and re-exports of crate-private items for component-level harnesses.
 
 pub mod net;
+
+/// Drop-in for `futures_timer::Delay` running on tokio's (pausable) clock.
+pub struct Delay(std::pin::Pin<Box<tokio::time::Sleep>>);
+
+impl Delay {
+    /// Create a new timer firing after `duration`.
+    pub fn new(duration: std::time::Duration) -> Self {
+        Self(Box::pin(tokio::time::sleep(duration)))
+    }
+}
+
+impl std::future::Future for Delay {
+    type Output = ();
+
+    fn poll(
+        mut self: std::pin::Pin<&mut Self>,
+        cx: &mut std::task::Context<'_>,
+    ) -> std::task::Poll<()> {
+        self.0.as_mut().poll(cx)
+    }
+}
+
+/// Shadows the `futures_timer` crate name where the code spells the path out.
+pub mod futures_timer {
+    pub use super::Delay;
+}
